@@ -928,3 +928,198 @@ Proof.
       (le_subN_enc l 44 4 4%nat), (le_subN_enc l 48 2 2%nat) by (first [assumption | lia | reflexivity]).
     rewrite <- (dropN_subN l 52). fold data. fold req. fold n1. rewrite <- Ed. reflexivity.
 Qed.
+
+(* ================= F. completeness ================= *)
+
+Lemma chans_mask_bit_true cs i : N.testbit (chans_mask cs) i = true <-> exists c, In c cs /\ chan_readout c - 1 = i.
+Proof.
+  rewrite chans_mask_bits, existsb_exists. split; intros (c & H1 & H2); exists c; (split; [assumption|]).
+  - apply N.eqb_eq. assumption.
+  - apply N.eqb_eq. assumption.
+Qed.
+
+Lemma chans_mask_bound cs : Forall (fun c => chan_valid c = true) cs -> chans_mask cs < 2 ^ 79.
+Proof.
+  intros Hv. apply high_bits_bound. intros i Hi.
+  destruct (N.testbit (chans_mask cs) i) eqn:T; [|reflexivity]. exfalso.
+  apply chans_mask_bit_true in T. destruct T as (c & Hc & E).
+  rewrite Forall_forall in Hv. destruct (readout_bwd c (Hv c Hc)) as [_ R]. lia.
+Qed.
+
+Lemma pred_sorted cs : Forall (fun c => chan_valid c = true) cs -> StronglySorted N.lt (map chan_readout cs) ->
+  StronglySorted N.lt (map (fun c => chan_readout c - 1) cs).
+Proof.
+  induction cs as [|c t IH]; intros Hv Hs; cbn [map] in *; [constructor|].
+  inversion Hv as [|? ? Hc Ht]; subst. inversion Hs as [|? ? Hs1 Hs2]; subst.
+  constructor; [apply IH; assumption|].
+  rewrite Forall_forall in *. intros x Hx. apply in_map_iff in Hx. destruct Hx as (y & <- & Hy).
+  specialize (Hs2 (chan_readout y) (in_map _ _ _ Hy)).
+  destruct (readout_bwd c Hc) as [_ R1]. destruct (readout_bwd y (Ht y Hy)) as [_ R2]. lia.
+Qed.
+
+Lemma mask_bits_chans_mask cs : chans_ok cs -> mask_bits (chans_mask cs) 79 = map (fun c => chan_readout c - 1) cs.
+Proof.
+  intros [Hv Hs]. apply sorted_ext; [apply mask_bits_sorted|apply pred_sorted; assumption|].
+  intros i. rewrite mask_bits_In, chans_mask_bit_true, in_map_iff. split.
+  - intros (_ & c & Hc & E). exists c. split; assumption.
+  - intros (c & E & Hc). split; [|exists c; split; assumption].
+    rewrite Forall_forall in Hv. destruct (readout_bwd c (Hv c Hc)) as [_ R]. lia.
+Qed.
+
+Lemma mask_chan_list_chans_mask cs : chans_ok cs -> mask_chan_list (chans_mask cs) = cs.
+Proof.
+  intros Hok. unfold mask_chan_list. rewrite (mask_bits_chans_mask cs Hok). rewrite map_map.
+  destruct Hok as [Hv _]. rewrite Forall_forall in Hv.
+  rewrite <- (map_id cs) at 2. apply map_ext_in. intros c Hc.
+  destruct (readout_bwd c (Hv c Hc)) as [_ R].
+  replace (chan_readout c - 1 + 1) with (chan_readout c) by lia.
+  apply readout_chan_d_bwd. apply Hv. assumption.
+Qed.
+
+Global Hint Rewrite enc_words_lenN : len.
+
+Lemma block_bytes_lenN req c w : lenN w = req -> lenN (block_bytes req c w) = bpc_of req.
+Proof.
+  intros H. unfold block_bytes, bpc_of. rewrite !lenN_app, !le_enc_lenN, enc_words_lenN, H.
+  destruct (N.eqb_spec (req mod 2) 0) as [E|E]; rewrite ?lenN_cons, ?lenN_nil; lia.
+Qed.
+
+Lemma blocks_bytes_lenN req : forall cs ws, length ws = length cs -> Forall (fun w => lenN w = req) ws ->
+  lenN (blocks_bytes req cs ws) = bpc_of req * lenN cs.
+Proof.
+  induction cs as [|c ct IH]; intros ws Hl Hw.
+  - rewrite (@lenN_nil chan). cbn [blocks_bytes]. rewrite lenN_nil. lia.
+  - destruct ws as [|w wt]; [discriminate|]. cbn [length] in Hl. inversion Hw; subst.
+    cbn [blocks_bytes]. rewrite lenN_app, block_bytes_lenN, IH, lenN_cons by (lia || assumption || reflexivity). lia.
+Qed.
+
+Lemma parse_blocks_length req n d : length (parse_blocks req n d) = n.
+Proof. revert d. induction n as [|n IH]; intros d; cbn [parse_blocks length]; [reflexivity|]. rewrite IH. reflexivity. Qed.
+
+Lemma blocks_pure_complete req : req <= 511 -> forall cs ws tail, length ws = length cs ->
+  Forall (fun w => lenN w = req) ws -> Forall (fun c => chan_valid c = true) cs ->
+  blocks_pure req (bpc_of req) (blocks_bytes req cs ws ++ tail) cs = true.
+Proof.
+  intros Hreq. induction cs as [|c ct IH]; intros ws tail Hl Hw Hv; [reflexivity|].
+  destruct ws as [|w wt]; [discriminate|]. cbn [length] in Hl.
+  inversion Hw as [|? ? Hw1 Hw2]; subst. inversion Hv as [|? ? Hc Hv2]; subst.
+  cbn [blocks_bytes blocks_pure]. rewrite <- app_assoc.
+  set (R := blocks_bytes (lenN w) ct wt ++ tail).
+  assert (Edrop : dropN (bpc_of (lenN w)) (block_bytes (lenN w) c w ++ R) = R).
+  { apply dropN_app_exact. apply block_bytes_lenN. reflexivity. }
+  assert (HR : blocks_pure (lenN w) (bpc_of (lenN w)) R ct = true) by (apply IH; (lia || assumption)).
+  rewrite Edrop, HR, andb_true_r.
+  destruct (readout_bwd c Hc) as [Rc1 Rc2].
+  unfold block_bytes. rewrite <- !app_assoc.
+  set (r := chan_readout c) in *. set (req := lenN w) in *.
+  assert (S0 : subN (le_enc 2 r ++ le_enc 2 req ++ enc_words w ++ (if req mod 2 =? 0 then [] else [0; 0]) ++ R) 0 2
+               = le_enc 2 r) by (apply subN_app_hd; reflexivity).
+  assert (S2 : subN (le_enc 2 r ++ le_enc 2 req ++ enc_words w ++ (if req mod 2 =? 0 then [] else [0; 0]) ++ R) 2 2
+               = le_enc 2 req) by (sub_walk; reflexivity).
+  rewrite S0, S2.
+  rewrite !le_val_enc_small by (change (256 ^ N.of_nat 2) with 65536; lia).
+  rewrite Rc1, chan_eqb_refl, N.eqb_refl. cbn [andb].
+  destruct (N.eqb_spec (req mod 2) 0) as [Ev|Od]; [reflexivity|]. cbn [orb].
+  assert (S4 : subN (le_enc 2 r ++ le_enc 2 req ++ enc_words w ++ [0; 0] ++ R) (4 + 2 * req) 2 = [0; 0]).
+  { rewrite subN_app_r by len_lia. rewrite subN_app_r by len_lia. rewrite subN_app_r by (autorewrite with len; fold req; lia).
+    apply subN_app_hd; [autorewrite with len; fold req; lia|reflexivity]. }
+  rewrite S4. reflexivity.
+Qed.
+
+Lemma after_of_char_ok chip : chip <= 3 -> after_of_char (65 + chip) = Some chip.
+Proof.
+  intros H. assert (chip = 0 \/ chip = 1 \/ chip = 2 \/ chip = 3) as [->|[->|[->| ->]]] by lia; reflexivity.
+Qed.
+
+Lemma le_enc10_top M : M < 2 ^ 79 -> nthN (le_enc 10 M) 9 < 128.
+Proof.
+  intros H. set (s := le_enc 10 M).
+  assert (Ls : lenN s = 10) by (unfold s; apply le_enc_lenN).
+  assert (Vs : le_val s = M).
+  { unfold s. apply le_val_enc_small. change (256 ^ N.of_nat 10) with 1208925819614629174706176.
+    change (2^79) with 604462909807314587353088 in H. lia. }
+  pose proof (subN_10_split s 0 ltac:(lia)) as E. rewrite subN_all in E by lia.
+  rewrite E, le_val_snoc, subN_length in Vs by lia. change (0 + 9) with 9 in Vs.
+  change (256 ^ 9) with 4722366482869645213696 in Vs. change (2^79) with 604462909807314587353088 in H. lia.
+Qed.
+
+Theorem pwb_pure_complete macs f : pwb_fields_ok macs f -> pwb_pure macs (pwb_encode f) = Ok f.
+Proof.
+  intros (Hchip & Htrig & Hmac & Lmac & Bmac & Hdelay & Hts & Hlast & Hreq & Hsent & Hover & Hcnt & Hfifo & Hwd &
+          Hrd & Hws & Hdata).
+  destruct f as [chip trig mac delay ts last req sent over counter fifo wd rd data].
+  unfold pwb_encode. unfold pwb_waves in *.
+  cbn [p_chip p_trig p_mac p_delay p_ts p_last p_req p_sent p_over p_counter p_fifo p_wdepth p_rdepth p_data] in *.
+  set (ws := parse_blocks req (length sent) data) in *.
+  destruct (len6 mac Lmac) as (m0 & m1 & m2 & m3 & m4 & m5 & ->).
+  assert (Lws : length ws = length sent) by apply parse_blocks_length.
+  assert (Hwl : Forall (fun w => lenN w = req) ws).
+  { rewrite Forall_forall in *. intros w Hw. apply Hws. assumption. }
+  pose proof (proj1 Hsent) as Vs.
+  assert (BM1 : chans_mask sent < 2 ^ 79) by (apply chans_mask_bound, Hsent).
+  assert (BM2 : chans_mask over < 2 ^ 79) by (apply chans_mask_bound, Hover).
+  set (M1 := chans_mask sent) in *. set (M2 := chans_mask over) in *.
+  set (tail := blocks_bytes req sent ws ++ [204; 204; 204; 204]).
+  assert (Lt : lenN tail = bpc_of req * lenN sent + 4).
+  { unfold tail. rewrite lenN_app, blocks_bytes_lenN by assumption. reflexivity. }
+  assert (Ht : tail = enc_words data).
+  { unfold tail. rewrite <- pwb_words_bytes by assumption. rewrite Hdata. reflexivity. }
+  assert (Hd16 : Forall i16_ok data) by (rewrite Hdata; apply pwb_words_i16; assumption).
+  set (l := [2; 65 + chip; 0; trig] ++ [m0; m1; m2; m3; m4; m5] ++ le_enc 2 delay ++ le_enc 6 ts ++ [0; 0] ++
+            le_enc 2 last ++ le_enc 2 req ++ le_enc 10 M1 ++ le_enc 10 M2 ++ le_enc 4 counter ++ le_enc 2 fifo ++
+            [wd; rd] ++ tail).
+  assert (Ll : lenN l = 52 + lenN tail) by (unfold l; autorewrite with len; change (N.of_nat 2) with 2;
+    change (N.of_nat 6) with 6; change (N.of_nat 10) with 10; change (N.of_nat 4) with 4; lia).
+  assert (F0 : nthN l 0 = 2) by reflexivity.
+  assert (F1 : nthN l 1 = 65 + chip) by reflexivity.
+  assert (F2 : nthN l 2 = 0) by reflexivity.
+  assert (F3 : nthN l 3 = trig) by reflexivity.
+  assert (S4 : subN l 4 6 = [m0; m1; m2; m3; m4; m5]) by reflexivity.
+  assert (S10 : subN l 10 2 = le_enc 2 delay) by reflexivity.
+  assert (S12 : subN l 12 8 = le_enc 6 ts ++ [0; 0]) by reflexivity.
+  assert (S18 : subN l 18 2 = [0; 0]) by reflexivity.
+  assert (S20 : subN l 20 2 = le_enc 2 last) by reflexivity.
+  assert (S22 : subN l 22 2 = le_enc 2 req) by reflexivity.
+  assert (S24 : subN l 24 10 = le_enc 10 M1) by reflexivity.
+  assert (S34 : subN l 34 10 = le_enc 10 M2) by reflexivity.
+  assert (S44 : subN l 44 4 = le_enc 4 counter) by reflexivity.
+  assert (S48 : subN l 48 2 = le_enc 2 fifo) by reflexivity.
+  assert (F33 : nthN l 33 = nthN (le_enc 10 M1) 9) by reflexivity.
+  assert (F43 : nthN l 43 = nthN (le_enc 10 M2) 9) by reflexivity.
+  assert (F50 : nthN l 50 = wd) by reflexivity.
+  assert (F51 : nthN l 51 = rd) by reflexivity.
+  assert (D52 : dropN 52 l = tail) by reflexivity.
+  clearbody l.
+  unfold pwb_pure. cbv zeta.
+  rewrite F0, F1, F2, F3, S4, S10, S12, S18, S20, S22, S24, S34, S44, S48, F33, F43, F50, F51, D52.
+  replace (lenN l <? 56) with false by lia.
+  rewrite after_of_char_ok by assumption.
+  replace (trigger_of trig) with (Some trig) by (destruct Htrig as [->|[->| ->]]; reflexivity).
+  rewrite Hmac. cbn [N.eqb Pos.eqb negb list_eqb andb].
+  rewrite !le_val_enc_small by
+    (change (256 ^ N.of_nat 2) with 65536; change (256 ^ N.of_nat 4) with 4294967296;
+     change (256 ^ N.of_nat 10) with 1208925819614629174706176;
+     change (2^16) with 65536 in *; change (2^32) with 4294967296 in *;
+     change (2^79) with 604462909807314587353088 in *; lia).
+  replace (511 <? last) with false by lia. replace (511 <? req) with false by lia.
+  pose proof (le_enc10_top M1 BM1) as T1. pose proof (le_enc10_top M2 BM2) as T2.
+  replace (128 <=? nthN (le_enc 10 M1) 9) with false by lia.
+  replace (128 <=? nthN (le_enc 10 M2) 9) with false by lia.
+  unfold M1, M2. rewrite !mask_chan_list_chans_mask by assumption.
+  rewrite Lt, N.eqb_refl. cbn [negb].
+  unfold tail at 1. rewrite blocks_pure_complete by assumption. cbn [negb].
+  replace (subN tail (bpc_of req * lenN sent + 4 - 4) 4) with [204; 204; 204; 204].
+  2:{ unfold tail. symmetry. apply subN_tail1; [rewrite blocks_bytes_lenN by assumption; lia|reflexivity]. }
+  cbn [N.eqb Pos.eqb negb list_eqb andb].
+  rewrite le_val_app_zeros by (repeat constructor).
+  rewrite le_val_enc_small by (change (256 ^ N.of_nat 6) with 281474976710656; change (2^48) with 281474976710656 in *; lia).
+  rewrite Ht, chunks_enc_words by assumption. rewrite !N.eqb_refl. reflexivity.
+Qed.
+
+Theorem pwb_exact_lemma macs m l f : bytes l ->
+  (pwb_decode macs m l = Ok f <-> pwb_fields_ok macs f /\ l = pwb_encode f).
+Proof.
+  intros Hb. rewrite pwb_decode_pure by assumption. split.
+  - apply pwb_pure_sound. assumption.
+  - intros (Hf & ->). apply pwb_pure_complete. assumption.
+Qed.
